@@ -15,6 +15,11 @@ Fixpoint sel_from (k : nat) (xs : list Q) (s : stretch) : list nat :=
   end.
 Definition sel (xs : list Q) (s : stretch) : list nat := sel_from 0 xs s.
 
+(* match_sections: the index pairs of matching sections [(first, second, reverse)], tuple by tuple *)
+Definition match_pairs (xs : list Q) (ms : list (stretch * stretch * bool)) : list (nat * nat) :=
+  flat_map (fun m : stretch * stretch * bool =>
+    combine (sel xs (fst (fst m))) (if snd m then rev (sel xs (snd (fst m))) else sel xs (snd (fst m)))) ms.
+
 Section Sec.
 Context {B : Type}.                                   (* bath names: dictionary keys *)
 Definition sections := list (B * list stretch).       (* in dictionary insertion order *)
